@@ -44,7 +44,7 @@ CHECKS = {
         design="4/C06"),
     "C10": dict(
         level="model_checking",
-        text="Stateless schedule exploration of real threads under a cooperative scheduler (hand-rolled, CHESS style): for 14 small thread programs (with-blocks, calls, "
+        text="Stateless schedule exploration of real threads under a cooperative scheduler (hand-rolled, CHESS style): for 16 small thread programs (with-blocks, calls, "
              "first-time compilation, get_by_name, register, first-use lookup of a lazily registered framework; 2-3 threads) every schedule with at most k pre-emptions "
              "(k iterated per program, scheduling point before every source line of einx's registry/api/cache/tracing files and at every lock acquire) is executed on the "
              "real code and its observation must be produced by some serial interleaving of the same operations (brute-force linearizability).",
